@@ -168,7 +168,9 @@ class Endpoint:
             if k == "brecv_nb":
                 s.record(("call", me, "brecv_nb"))
                 try:
-                    frm, msg = self.chan.recv(block=False)
+                    # (every other poll also passes a timeout: "do not block" wins, an empty channel is reported at once)
+                    self.nb_bcalls = getattr(self, "nb_bcalls", 0) + 1
+                    frm, msg = self.chan.recv(block=False, timeout=5.0) if self.nb_bcalls % 2 == 0 else self.chan.recv(block=False)
                     s.record(("ret", me, "brecv_nb", frm, msg))
                 except BaseException as e:
                     if isinstance(e, (vs.SchedBound, vs.SchedDeadlock)):
